@@ -258,6 +258,34 @@ def execute(family, p, seed):
                     out.fail("%s:differs-from-object-level:%s" % (site, cfg), "tuple=%r scale=%s err=%.3g" % (tup, sc, err))
                 if not np.array_equal(v, keep):
                     out.fail("%s:mutates-argument:%s" % (site, cfg), "tuple=%r scale=%s max change %.3g" % (tup, sc, np.abs(v - keep).max()))
+            # closures requested with an explicit flag from a template built with the OTHER flag, and with None from both
+            other = F.make(base, on_para_eq_constraint=not flag, **ekw)
+            cross = [
+                ("func_cross.eq", lambda v: other.func_calc_proj_eq_constraint(flag)(v), exp_eq),
+                ("func_cross.ineq", lambda v: other.func_calc_proj_ineq_constraint(flag)(v), exp_in),
+                ("func_with_var_cross.eq", lambda v: other.func_calc_proj_eq_constraint_with_var(flag)(v), exp_eq),
+                ("func_with_var_cross.ineq", lambda v: other.func_calc_proj_ineq_constraint_with_var(flag)(v), exp_in),
+                ("func_with_var_none.eq", lambda v: tmpl.func_calc_proj_eq_constraint_with_var(None)(v), exp_eq),
+                ("func_none.ineq", lambda v: tmpl.func_calc_proj_ineq_constraint(None)(v), exp_in),
+            ]
+            for rname, fn, expv in cross:
+                v = v0.copy()
+                ok, got = A.call(fn, v)
+                out.ops += 1
+                out.traces += 1
+                site = "%s:flag=%s" % (rname, flag)
+                if not ok:
+                    if big and isinstance(got, ValueError) and "imaginary parts" in str(got):
+                        out.fail("ineq-projection:raises:imag-truncation-absolute-threshold:scale>10",
+                                 "%s via %s tuple=%r scale=%s: %s" % (cfg, site, tup, sc, A.fmt_exc(got)[:160]))
+                    else:
+                        out.fail("%s:raises:%s" % (site, tag), "tuple=%r: %s" % (tup, A.fmt_exc(got)))
+                    continue
+                good, err = close(got, expv, scale)
+                if not good:
+                    out.fail("%s:explicit-flag-not-honoured-or-wrong:%s" % (site, cfg), "tuple=%r scale=%s err=%.3g" % (tup, sc, err))
+                if not np.array_equal(v, v0):
+                    out.fail("%s:mutates-argument:%s" % (site, cfg), "tuple=%r" % (tup,))
             # object with the flag: projection then to_var
             for nm, meth, expv in (("eq", "calc_proj_eq_constraint", exp_eq), ("ineq", "calc_proj_ineq_constraint", exp_in)):
                 ok, r = A.call(getattr(tmpl, meth))
